@@ -585,6 +585,42 @@ var mutators = []mutator{
 	}},
 }
 
+// combo applies two mutators, chosen by the argument, one after the other (verdict-only comparison).
+func init() {
+	type pick struct {
+		m *mutator
+		a int64
+	}
+	var flat []pick
+	for i := range mutators {
+		m := &mutators[i]
+		switch m.name {
+		case "valid", "firstnotcb", "notx", "bip30", "weight", "basesize", "sigops":
+			continue // replace the coinbase or tune the whole block: not composable
+		}
+		for _, a := range m.args {
+			flat = append(flat, pick{m, a})
+		}
+	}
+	n := int64(len(flat))
+	args := make([]int64, 0, 400)
+	for k := int64(0); k < 400; k++ {
+		args = append(args, k)
+	}
+	mutators = append(mutators, mutator{"combo", args, always, func(c *cand, a int64) {
+		x := uint64(a)*0x9E3779B97F4A7C15 + 77
+		x ^= x >> 29
+		i := int64(x % uint64(n))
+		j := int64((x / uint64(n)) % uint64(n))
+		for _, p := range []pick{flat[i], flat[j]} {
+			if p.m.applies(c.bs.v, c.height) {
+				p.m.f(c, p.a)
+			}
+		}
+		c.mode = "V"
+	}})
+}
+
 // resign re-signs candidate transaction i after its outputs changed.
 func (c *cand) resign(i int) {
 	t := c.txs[i]
